@@ -1290,7 +1290,18 @@ func runStack(c Case, seed uint64) (problems []problem, stat string) {
 			return nil, "stack.skipped.open"
 		}
 		inos := map[uint64]uint32{}
-		t := crawl(ol.root, c, true, r, fmt.Sprintf("layer%d:", i), inos, bad)
+		var t map[string]*tnode
+		if _, errno := doReaddir(ol.root); c.Store == "db" && len(l) == 0 && errno == syscall.EIO {
+			// C05's known finding F51 seen through the node API: the db store fails its initialisation on the TOC of an
+			// empty tar ({"entries":null}), so the root of an EMPTY layer cannot be listed (EIO) where the memory store
+			// serves an empty directory. Exactly this situation (db store, layer without any entry, EIO on the root) is
+			// reported under a narrow signature; any other Readdir failure stays a violation (crawl reports it).
+			bad("C07-db-empty-layer-root-eio", "layer %d has no entries and is opened with the db store: Readdir of its root fails with EIO (db initialisation fails on an empty TOC)", i)
+			t = map[string]*tnode{}
+			stackEmptyDB++
+		} else {
+			t = crawl(ol.root, c, true, r, fmt.Sprintf("layer%d:", i), inos, bad)
+		}
 		ol.close()
 		served = append([]map[string]*tnode{t}, served...)
 		applyOCI(image, l)
@@ -1500,6 +1511,7 @@ func genOps(r *hx.Rng, c Case, isDir bool) []Op {
 // ---------------------------------------------------------------------------------------------
 
 var ncases int
+var stackEmptyDB int
 
 func main() {
 	ctx := hx.Start()
@@ -1562,6 +1574,7 @@ func main() {
 		var c Case
 		ctx.LoadReplay(&c)
 		emit(c)
+		ctx.CountN("stack.db-empty-layer", stackEmptyDB)
 		ctx.Finish()
 		return
 	}
@@ -1606,6 +1619,7 @@ func main() {
 			}
 		}
 	}
+	ctx.CountN("stack.db-empty-layer", stackEmptyDB)
 	ctx.Finish()
 }
 
